@@ -1,17 +1,29 @@
 import SlipVerif.Gen.SeqKeywords
+import SlipVerif.Gen.SeqLoops
+import SlipVerif.Theorems.C14Go
 /-
-  C14 — obligations over the regenerated table `SlipVerif.Gen.SeqKeywords.accepted`
-  (file ↦ keyword literals accepted by the argument parser in that file, extracted from
-  pkg/cl/*.go on every run by extract/seqkw.go).
+  C14 — obligations over what `/verif/extract` regenerates from pkg/cl/*.go on every run.
 
-  The model's keyword record (Model/Seq.lean `Kw` and the bounds of the two-sequence functions)
-  has the fields start end key test test-not count from-end (start1 end1 start2 end2 for search,
-  mismatch and replace; initial-value for reduce). The obligation: every keyword the model gives a
-  function is accepted by the parser that function uses. `:test-not` is required only where slip
-  accepts it (the shared parser after fix 0013); its absence elsewhere is recorded as known
-  findings (family=… keyword=test-not) and checked by the correspondence harness.
-  A keyword that disappears from a parser breaks this module: the check then reports a broken
-  K-gen obligation next to the failing inputs the harness finds.
+  1. `Gen/SeqKeywords.lean` (extract/seqkw.go): file ↦ keyword literals accepted by its argument parser.
+     Every keyword the model gives a function is accepted by the parser that function uses.
+  2. `Gen/SeqLoops.lean` (extract/seqloops.go, a translator of the integer control skeleton of the scan
+     loops): for every loop of delete(-if), delete-duplicates, count(-if), substitute(-if),
+     position(-if), find(-if) on lists, strings and octets — first index, continuation test, step,
+     keep-guard, branch (`:from-end` or not), reversal; the end defaulting statement; the window
+     re-slicing of position / find and the index they answer; the argument order of every call of
+     the `:test` function / predicate; the `sort.` function behind sort / stable-sort; the merge step;
+     the defaults of the shared keyword parser and its acceptance test for `:start` / `:end`.
+     The obligations say that each extracted skeleton is extensionally the reference skeleton
+     (`GoLoop.IsDeleteFwd` … of Model/SeqGo.lean; comparisons are proved by `omega`, so `a <= b`
+     rewritten as `!(b < a)` or a reordered disjunction stays silent, `<=` turned into `<` does not),
+     uniformly for the list, string and octets branches, and instantiate the refinement theorems of
+     Theorems/C14Go.lean with the extracted skeletons: the loops the code contains now compute
+     `remove`, `count` and `position` for all in-range bounds, counts and both directions.
+
+  `:test-not` is required only where slip accepts it (the shared parser after fix 0013); its absence
+  elsewhere is recorded as known findings (family=… keyword=test-not) and checked by the harness.
+  A failure to build this module is reported as a broken proof obligation and the harness searches
+  for a failing input.
 -/
 namespace SlipVerif.Seq.Gen
 open SlipVerif.Gen.SeqKeywords
@@ -46,5 +58,321 @@ def covered : Bool :=
 
 /-- every keyword the model gives a function is accepted by that function's parser in the code -/
 theorem parsers_accept_model_keywords : covered = true := by decide
+
+/-! ### three-way agreement per function: documented lambda list / keywords the code reads / keywords of the model -/
+
+/-- function ↦ (the parser that reads its keywords, the keywords the model gives it (`Kw` and the
+    bounds of the two-sequence functions; the harness generates exactly these)) -/
+def modelKeywords : List (String × String × List String) := [
+  ("find", "setKeysItem", [":key", ":test", ":test-not", ":start", ":end", ":from-end"]),
+  ("position", "setKeysItem", [":key", ":test", ":test-not", ":start", ":end", ":from-end"]),
+  ("count", "setKeysItem", [":key", ":test", ":test-not", ":start", ":end", ":from-end"]),
+  ("remove", "setKeysItem", [":key", ":test", ":test-not", ":start", ":end", ":from-end", ":count"]),
+  ("delete", "setKeysItem", [":key", ":test", ":test-not", ":start", ":end", ":from-end", ":count"]),
+  ("remove-duplicates", "setKeysItem", [":key", ":test", ":start", ":end", ":from-end"]),
+  ("delete-duplicates", "setKeysItem", [":key", ":test", ":start", ":end", ":from-end"]),
+  ("find-if", "setKeysIf", [":key", ":start", ":end", ":from-end"]),
+  ("position-if", "setKeysIf", [":key", ":start", ":end", ":from-end"]),
+  ("count-if", "setKeysIf", [":key", ":start", ":end", ":from-end"]),
+  ("remove-if", "setKeysIf", [":key", ":start", ":end", ":from-end", ":count"]),
+  ("delete-if", "setKeysIf", [":key", ":start", ":end", ":from-end", ":count"]),
+  ("substitute", "substitute.go", [":key", ":test", ":start", ":end", ":from-end", ":count"]),
+  ("nsubstitute", "substitute.go", [":key", ":test", ":start", ":end", ":from-end", ":count"]),
+  ("substitute-if", "substitute-if.go", [":key", ":start", ":end", ":from-end", ":count"]),
+  ("nsubstitute-if", "substitute-if.go", [":key", ":start", ":end", ":from-end", ":count"]),
+  ("member", "member.go", [":key", ":test"]),
+  ("assoc", "assoc.go", [":key", ":test"]),
+  ("rassoc", "rassoc.go", [":key", ":test"]),
+  ("search", "search.go", [":key", ":test", ":start1", ":end1", ":start2", ":end2", ":from-end"]),
+  ("mismatch", "mismatch.go", [":key", ":test", ":start1", ":end1", ":start2", ":end2", ":from-end"]),
+  ("replace", "replace.go", [":start1", ":end1", ":start2", ":end2"]),
+  ("fill", "fill.go", [":start", ":end"]),
+  ("sort", "sort.go", [":key"]),
+  ("stable-sort", "stable-sort.go", [":key"]),
+  ("merge", "merge.go", [":key"]),
+  ("reduce", "reduce.go", [":key", ":start", ":end", ":from-end", ":initial-value"]),
+  ("set-difference", "set-difference.go", [":key", ":test"]),
+  ("subsetp", "subsetp.go", [":key", ":test"])
+]
+
+def readBy (parser : String) : List String :=
+  match acceptedByParser.lookup parser with
+  | some ks => ks
+  | none => acceptedBy parser
+
+def docOf (fn : String) : List String :=
+  match documented.lookup fn with
+  | some ks => ks
+  | none => []
+
+def subset (a b : List String) : Bool := a.all (fun k => b.contains k)
+
+/-- for every function: (1) every documented keyword is read by the code, (2) the model knows every
+    documented keyword, (3) the model takes nothing that is not documented — except `:test-not`, the
+    complement of the documented `:test`, which the language gives every function that takes `:test`
+    (the shared parser reads it since fix 0013; elsewhere its absence is a known finding) —,
+    (4) every keyword of the model is read by the code, and (5) the table covers every extracted function -/
+theorem keywords_agree_three_ways :
+    modelKeywords.all (fun (fn, parser, kws) =>
+      subset (docOf fn) (readBy parser) &&
+      subset (docOf fn) kws &&
+      subset kws (":test-not" :: docOf fn) &&
+      subset kws (readBy parser) &&
+      !(docOf fn).isEmpty) = true ∧
+    documented.all (fun d => modelKeywords.any (fun m => m.1 == d.1)) = true := by
+  decide
+
+/-! ## the loop skeletons translated from the Go source -/
+open SlipVerif.Gen.SeqLoops
+
+def toGo (L : IdxLoop) : GoLoop := ⟨L.init, L.cond, L.step, L.skip⟩
+def toWin (W : Window) : GoWindow := ⟨W.early, W.cut, W.lo1, W.hi1, W.lo2⟩
+
+/-- closes one field obligation: unfold the extracted definition, turn `decide a = decide b` into
+    `a ↔ b`, and leave the integer comparison to `omega` -/
+macro "skel" defs:Lean.Parser.Tactic.simpLemma,* : tactic =>
+  `(tactic| (intros; simp only [toGo, toWin, $defs,*, decide_eq_decide, MaxInt] <;> (try omega)))
+
+/-- delete.go, delete-if.go (remove, delete, remove-if, delete-if): the three forward loops of each
+    file are the reference forward loop, stand in the branch without `:from-end`, nothing reversed -/
+theorem delete_forward_loops : ∀ L ∈ deleteFwd, (toGo L).IsDeleteFwd ∧ L.branch = "!fromEnd" ∧ L.reversedAfter = false := by
+  intro L hL
+  simp only [deleteFwd, List.mem_cons, List.mem_nil_iff, or_false] at hL
+  rcases hL with rfl | rfl | rfl | rfl | rfl | rfl <;>
+    refine ⟨⟨?_, ?_, ?_, ?_⟩, by rfl, by rfl⟩ <;>
+    skel delete_inList_loop2, delete_inString_loop2, delete_inOctets_loop2, delete_if_inList_loop2,
+      delete_if_inString_loop2, delete_if_inOctets_loop2
+
+/-- … and the three backward loops are the reference backward loop, in the `:from-end` branch, followed
+    by the reversal of what they collected -/
+theorem delete_backward_loops : ∀ L ∈ deleteBwd, (toGo L).IsDeleteBwd ∧ L.branch = "fromEnd" ∧ L.reversedAfter = true := by
+  intro L hL
+  simp only [deleteBwd, List.mem_cons, List.mem_nil_iff, or_false] at hL
+  rcases hL with rfl | rfl | rfl | rfl | rfl | rfl <;>
+    refine ⟨⟨?_, ?_, ?_, ?_⟩, by rfl, by rfl⟩ <;>
+    skel delete_inList_loop1, delete_inString_loop1, delete_inOctets_loop1, delete_if_inList_loop1,
+      delete_if_inString_loop1, delete_if_inOctets_loop1
+
+/-- the end defaulting of delete.go / delete-if.go keeps an in-range end and turns an absent end into
+    at least the number of elements (for strings: the byte length) -/
+theorem delete_end_defaulting : ∀ N ∈ deleteNormEnds, IsNormEndAtLeast N.norm := by
+  intro N hN
+  simp only [deleteNormEnds, List.mem_cons, List.mem_nil_iff, or_false] at hN
+  rcases hN with rfl | rfl | rfl | rfl | rfl | rfl <;>
+    (intro n nb e hn hnb
+     simp only [delete_inList_normEnd, delete_inString_normEnd, delete_inOctets_normEnd, delete_if_inList_normEnd,
+       delete_if_inString_normEnd, delete_if_inOctets_normEnd]
+     refine ⟨?_, fun h0 h1 => ?_⟩ <;> split <;> omega)
+
+/-- uniformity: each of delete.go and delete-if.go has the list, string and octets branch -/
+theorem delete_loops_cover_kinds :
+    deleteFwd.map (fun L => (L.file, L.kind)) =
+      [("delete.go", "list"), ("delete.go", "string"), ("delete.go", "octets"),
+       ("delete-if.go", "list"), ("delete-if.go", "string"), ("delete-if.go", "octets")] ∧
+    deleteBwd.map (fun L => (L.file, L.kind)) = deleteFwd.map (fun L => (L.file, L.kind)) ∧
+    deleteNormEnds.map (fun N => (N.file, N.kind)) = deleteFwd.map (fun L => (L.file, L.kind)) := by
+  decide
+
+/-- **the loops delete.go contains now compute `remove`**: any forward loop, backward loop and end
+    defaulting extracted from delete.go / delete-if.go, run as Go runs them (explicit index, element
+    fetch that faults outside the slice), return exactly the specification's `remove` for every
+    sequence, every in-range `:start`/`:end`, every `:count` and both directions -/
+theorem delete_go_refines_remove {α : Type} :
+    ∀ F ∈ deleteFwd, ∀ B ∈ deleteBwd, ∀ N ∈ deleteNormEnds,
+    ∀ (p : α → Bool) (start : Nat) (stop : Option Nat) (count : Option Int) (fromEnd : Bool) (xs : List α)
+      (nb : Int), (xs.length : Int) ≤ nb → (xs.length : Int) ≤ goMaxInt →
+    ∀ s e, bounds start stop xs.length = .ok (s, e) →
+      goDelete (toGo F) (toGo B) N.norm nb p start stop count fromEnd xs = some (remove p s e count fromEnd xs) := by
+  intro F hF B hB N hN p start stop count fromEnd xs nb hnb hlen s e hbd
+  exact goDelete_refines_remove _ _ _ (delete_forward_loops F hF).1 (delete_backward_loops B hB).1
+    (delete_end_defaulting N hN) p start stop count fromEnd xs nb hnb hlen s e hbd
+
+/-- count.go, count-if.go: `for i := start; i < end; i++` / `for i := end - 1; start <= i; i--` -/
+theorem count_loops :
+    (∀ L ∈ countFwd, (toGo L).IsRangeFwd ∧ L.branch = "!fromEnd") ∧
+    (∀ L ∈ countBwd, (toGo L).IsRangeBwd ∧ L.branch = "fromEnd") := by
+  constructor <;> intro L hL
+  · simp only [countFwd, List.mem_cons, List.mem_nil_iff, or_false] at hL
+    rcases hL with rfl | rfl | rfl | rfl <;> refine ⟨⟨?_, ?_, ?_⟩, by rfl⟩ <;>
+      skel count_inList_loop2, count_inString_loop2, count_if_inList_loop2, count_if_inString_loop2
+  · simp only [countBwd, List.mem_cons, List.mem_nil_iff, or_false] at hL
+    rcases hL with rfl | rfl | rfl | rfl <;> refine ⟨⟨?_, ?_, ?_⟩, by rfl⟩ <;>
+      skel count_inList_loop1, count_inString_loop1, count_if_inList_loop1, count_if_inString_loop1
+
+/-- the end bounds the loop of count.go itself: an absent end must become exactly the number of
+    elements (for a string the number of characters, not the byte length — fix 0019) -/
+theorem count_end_defaulting : ∀ N ∈ countNormEnds, IsNormEnd N.norm := by
+  intro N hN
+  simp only [countNormEnds, List.mem_cons, List.mem_nil_iff, or_false] at hN
+  rcases hN with rfl | rfl | rfl | rfl <;>
+    (intro n nb e hn hnb
+     simp only [count_inList_normEnd, count_inString_normEnd, count_if_inList_normEnd, count_if_inString_normEnd]
+     refine ⟨?_, fun h0 h1 => ?_⟩ <;> split <;> omega)
+
+/-- **the loops count.go contains now compute `count`**, without an index fault -/
+theorem count_go_refines_count {α : Type} :
+    ∀ F ∈ countFwd, ∀ B ∈ countBwd, ∀ N ∈ countNormEnds,
+    ∀ (p : α → Bool) (start : Nat) (stop : Option Nat) (fromEnd : Bool) (xs : List α)
+      (nb : Int), (xs.length : Int) ≤ nb →
+    ∀ s e, bounds start stop xs.length = .ok (s, e) →
+      goCount (toGo F) (toGo B) N.norm nb p start stop fromEnd xs = some (SlipVerif.Seq.count p s e xs) := by
+  intro F hF B hB N hN p start stop fromEnd xs nb hnb s e hbd
+  exact goCount_refines_count _ _ _ (count_loops.1 F hF).1 (count_loops.2 B hB).1 (count_end_defaulting N hN)
+    p start stop fromEnd xs nb hnb s e hbd
+
+/-- position(-if).go, find(-if).go: the forward loop visits every index of the window in ascending
+    order (only without `:from-end`), the backward loop in descending order -/
+theorem window_loops :
+    (∀ L ∈ windowFwd, (toGo L).IsAllFwd ∧ L.branch = "!fromEnd") ∧
+    (∀ L ∈ windowBwd, (toGo L).IsAllBwd ∧ (L.branch = "" ∨ L.branch = "fromEnd")) := by
+  constructor <;> intro L hL
+  · simp only [windowFwd, List.mem_cons, List.mem_nil_iff, or_false] at hL
+    rcases hL with rfl | rfl | rfl | rfl | rfl | rfl | rfl | rfl | rfl | rfl | rfl | rfl <;>
+      refine ⟨⟨?_, ?_, ?_⟩, by rfl⟩ <;>
+      skel position_inList_loop1, position_inString_loop1, position_inOctets_loop1, position_if_inList_loop1,
+        position_if_inString_loop1, position_if_inOctets_loop1, find_inList_loop1, find_inString_loop1,
+        find_inOctets_loop1, find_if_inList_loop1, find_if_inString_loop1, find_if_inOctets_loop1
+  · simp only [windowBwd, List.mem_cons, List.mem_nil_iff, or_false] at hL
+    rcases hL with rfl | rfl | rfl | rfl | rfl | rfl | rfl | rfl | rfl | rfl | rfl | rfl <;>
+      refine ⟨⟨?_, ?_, ?_⟩, by decide⟩ <;>
+      skel position_inList_loop2, position_inString_loop2, position_inOctets_loop2, position_if_inList_loop2,
+        position_if_inString_loop2, position_if_inOctets_loop2, find_inList_loop2, find_inString_loop2,
+        find_inOctets_loop2, find_if_inList_loop2, find_if_inString_loop2, find_if_inOctets_loop2
+
+/-- the window of position / find is `[start, end)`, an early nil only for an empty window, and a
+    match at window index `i` is answered as `start + i` -/
+theorem windows_are_ranges : ∀ W ∈ windows, (toWin W).IsRange ∧ ∀ r ∈ W.rets, ∀ i s, r i s = s + i := by
+  intro W hW
+  simp only [windows, List.mem_cons, List.mem_nil_iff, or_false] at hW
+  rcases hW with rfl | rfl | rfl | rfl | rfl | rfl | rfl | rfl | rfl | rfl | rfl | rfl <;>
+    refine ⟨⟨?_, ?_, ?_, ?_, ?_⟩, ?_⟩ <;>
+    (try skel position_inList_window, position_inString_window, position_inOctets_window, position_if_inList_window,
+        position_if_inString_window, position_if_inOctets_window, find_inList_window, find_inString_window,
+        find_inOctets_window, find_if_inList_window, find_if_inString_window, find_if_inOctets_window) <;>
+    (intro r hr i s
+     simp only [position_inList_window, position_inString_window, position_inOctets_window, position_if_inList_window,
+        position_if_inString_window, position_if_inOctets_window, find_inList_window, find_inString_window,
+        find_inOctets_window, find_if_inList_window, find_if_inString_window, find_if_inOctets_window,
+        List.mem_cons, List.mem_nil_iff, or_false, or_self, List.not_mem_nil] at hr <;>
+     first
+       | (subst hr; rfl)
+       | (rcases hr with rfl | rfl <;> rfl))
+
+/-- **the loops position.go contains now compute `position`** (find returns the element there) -/
+theorem position_go_refines_position {α : Type} :
+    ∀ W ∈ windows, ∀ F ∈ windowFwd, ∀ B ∈ windowBwd,
+    ∀ (p : α → Bool) (start : Nat) (stop : Option Nat) (fromEnd : Bool) (xs : List α) s e,
+      bounds start stop xs.length = .ok (s, e) →
+      goPosition (toWin W) (toGo F) (toGo B) (fun i s => s + i) p start stop fromEnd xs
+        = some ((position p s e fromEnd xs).map (fun k : Nat => (k : Int))) := by
+  intro W hW F hF B hB p start stop fromEnd xs s e hbd
+  exact goPosition_refines_position _ _ _ _ (windows_are_ranges W hW).1 (window_loops.1 F hF).1 (window_loops.2 B hB).1
+    (fun _ _ => rfl) p start stop fromEnd xs s e hbd
+
+/-- delete-duplicates.go (remove-duplicates, delete-duplicates): both loops visit every index, keep the
+    elements outside `[start, end)` without a look; the ascending loop serves `:from-end` (the first
+    of equal elements survives), the descending loop with reversal serves the default (the last survives) -/
+theorem duplicates_loops :
+    (∀ L ∈ dupsFwd, (toGo L).IsGuardFwd ∧ L.branch = "fromEnd" ∧ L.reversedAfter = false) ∧
+    (∀ L ∈ dupsBwd, (toGo L).IsGuardBwd ∧ L.branch = "!fromEnd" ∧ L.reversedAfter = true) ∧
+    (∀ N ∈ dupsNormEnds, IsNormEndAtLeast N.norm) := by
+  refine ⟨?_, ?_, ?_⟩
+  · intro L hL
+    simp only [dupsFwd, List.mem_cons, List.mem_nil_iff, or_false] at hL
+    rcases hL with rfl | rfl | rfl <;> refine ⟨⟨?_, ?_, ?_, ?_⟩, by rfl, by rfl⟩ <;>
+      skel delete_duplicates_inList_loop1, delete_duplicates_inString_loop1, delete_duplicates_inOctets_loop1
+  · intro L hL
+    simp only [dupsBwd, List.mem_cons, List.mem_nil_iff, or_false] at hL
+    rcases hL with rfl | rfl | rfl <;> refine ⟨⟨?_, ?_, ?_, ?_⟩, by rfl, by rfl⟩ <;>
+      skel delete_duplicates_inList_loop2, delete_duplicates_inString_loop2, delete_duplicates_inOctets_loop2
+  · intro N hN
+    simp only [dupsNormEnds, List.mem_cons, List.mem_nil_iff, or_false] at hN
+    rcases hN with rfl | rfl | rfl <;>
+      (intro n nb e hn hnb
+       simp only [delete_duplicates_inList_normEnd, delete_duplicates_inString_normEnd, delete_duplicates_inOctets_normEnd]
+       refine ⟨?_, fun h0 h1 => ?_⟩ <;> split <;> omega)
+
+/-- substitute.go, substitute-if.go (and the n-variants, which call them): the loops run over
+    `[start, end)` ascending, descending with `:from-end`; an absent end is the number of elements -/
+theorem substitute_loops :
+    (∀ L ∈ substFwd, (toGo L).IsRangeFwd ∧ L.branch = "!fromEnd") ∧
+    (∀ L ∈ substBwd, (toGo L).IsRangeBwd ∧ L.branch = "fromEnd") ∧
+    (∀ N ∈ substNormEnds, IsNormEnd N.norm) := by
+  refine ⟨?_, ?_, ?_⟩
+  · intro L hL
+    simp only [substFwd, List.mem_cons, List.mem_nil_iff, or_false] at hL
+    rcases hL with rfl | rfl | rfl | rfl <;> refine ⟨⟨?_, ?_, ?_⟩, by rfl⟩ <;>
+      skel substitute_replace_loop2, substitute_replaceBytes_loop2, substitute_if_replace_loop2, substitute_if_replaceBytes_loop2
+  · intro L hL
+    simp only [substBwd, List.mem_cons, List.mem_nil_iff, or_false] at hL
+    rcases hL with rfl | rfl | rfl | rfl <;> refine ⟨⟨?_, ?_, ?_⟩, by rfl⟩ <;>
+      skel substitute_replace_loop1, substitute_replaceBytes_loop1, substitute_if_replace_loop1, substitute_if_replaceBytes_loop1
+  · intro N hN
+    simp only [substNormEnds, List.mem_cons, List.mem_nil_iff, or_false] at hN
+    rcases hN with rfl | rfl | rfl | rfl <;>
+      (intro n nb e hn hnb
+       simp only [substitute_replace_normEnd, substitute_replaceBytes_normEnd, substitute_if_replace_normEnd,
+         substitute_if_replaceBytes_normEnd]
+       refine ⟨?_, fun h0 h1 => ?_⟩ <;> split <;> omega)
+
+/-! ## argument order of the test calls, sort functions, merge step, parser defaults -/
+
+def argsOf (file : String) : List (List String) :=
+  match testCallArgs.lookup file with
+  | some l => l
+  | none => []
+
+/-- the `:test` function receives the item first and the (key of the) element second — the order the
+    model's `Kw.matcher` uses; the predicate of an -if function receives the key of the element alone -/
+theorem test_called_with_item_then_element :
+    argsOf "delete.go" = [["sfv.item", "key"]] ∧ argsOf "count.go" = [["sfv.item", "key"]] ∧
+    argsOf "find.go" = [["sfv.item", "key"]] ∧ argsOf "position.go" = [["sfv.item", "key"]] ∧
+    argsOf "substitute.go" = [["sr.old", "v"]] ∧ argsOf "member.go" = [["item", "k"]] ∧
+    argsOf "assoc.go" = [["item", "k"]] ∧ argsOf "rassoc.go" = [["item", "k"]] ∧
+    argsOf "delete-if.go" = [["key"]] ∧ argsOf "count-if.go" = [["key"]] ∧ argsOf "find-if.go" = [["key"]] ∧
+    argsOf "position-if.go" = [["key"]] ∧ argsOf "substitute-if.go" = [["v"]] ∧ argsOf "member-if.go" = [["k"]] ∧
+    argsOf "assoc-if.go" = [["k"]] ∧ argsOf "rassoc-if.go" = [["k"]] := by
+  decide
+
+/-- two-sequence functions: the element of sequence-1 / list-1 comes first (`Kw.eqv a b` with `a`
+    from the first sequence); sort and stable-sort call the predicate as `(pred x[i] x[j])` inside Go's
+    `less(i, j)` -/
+theorem test_called_with_first_sequence_first :
+    argsOf "search.go" = [["last", "v2"], ["first", "v2"], ["v1", "seq2[i]"]] ∧
+    argsOf "mismatch.go" = [["v1", "v2"]] ∧ argsOf "set-difference.go" = [["k1", "k2"]] ∧
+    argsOf "subsetp.go" = [["k1", "k2"]] ∧ argsOf "intersection.go" = [["k1", "k2"]] ∧
+    argsOf "sort.go" = [["vi", "vj"]] ∧ argsOf "stable-sort.go" = [["vi", "vj"]] := by
+  decide
+
+/-- stable-sort is Go's stable sort; sort may be any `sort.` function -/
+theorem stable_sort_uses_a_stable_algorithm :
+    (sortCalls.filter (fun c => c.1 == "stable-sort.go")).length ≥ 1 ∧
+    (sortCalls.filter (fun c => c.1 == "stable-sort.go")).all (fun c => c.2 == "SliceStable") = true ∧
+    (sortCalls.filter (fun c => c.1 == "sort.go")).length ≥ 1 := by
+  decide
+
+/-- merge takes from sequence-2 only when its head is strictly less than the head of sequence-1
+    (`less = predicate(k2, k1)`), otherwise from sequence-1: ties keep sequence-1 first, as
+    `merge_spec` states for the model's `List.merge … (leOf lt key)` -/
+theorem merge_step_is_stable :
+    mergeLessArgs = "k2 k1" ∧ mergeTakesWhenLess = "seq2" ∧ mergeTakesOtherwise = "seq1" ∧
+    argsOf "merge.go" = [["k2", "k1"]] := by
+  decide
+
+/-- the shared keyword parser: `:end` defaults to "absent" (-1, resolved by the end defaulting above),
+    `:count` to Go's largest int (no limit: `goCountArg`), for both the item and the -if parser -/
+theorem parser_defaults :
+    parserDefaults = [("setKeysItem", "end", -1), ("setKeysItem", "count", goMaxInt),
+                      ("setKeysIf", "end", -1), ("setKeysIf", "count", goMaxInt)] := by
+  decide
+
+/-- every non-negative fixnum is accepted as `:start` / `:end` by both parsers (in-range bounds are never
+    rejected at the parser; 0 in particular) -/
+theorem parser_accepts_in_range_bounds : boundAccepts.length = 4 ∧ ∀ a ∈ boundAccepts, ∀ num : Int, 0 ≤ num → a num := by
+  refine ⟨by rfl, ?_⟩
+  intro a ha num hnum
+  simp only [boundAccepts, List.mem_cons, List.mem_nil_iff, or_false] at ha
+  rcases ha with rfl | rfl | rfl | rfl <;>
+    simp only [accepts_setKeysItem_start, accepts_setKeysItem_end, accepts_setKeysIf_start, accepts_setKeysIf_end] <;> omega
 
 end SlipVerif.Seq.Gen
